@@ -572,8 +572,16 @@ impl Series1 {
     pub fn resampled_n(&self, n: usize) -> Self {
         let step_size = (self.x_max() - self.x_min()) / (n as f64 - 1.0);
         // TODO: Make this linear rather than using the binary search
+        // The last value is x_max itself: x_min + (n - 1) * step can fall a few ulps short of it,
+        // which would leave the original end point outside the resampled series.
         let xs = (0..n)
-            .map(|i| (self.x_min() + (i as f64) * step_size).min(self.x_max()))
+            .map(|i| {
+                if i + 1 == n {
+                    self.x_max()
+                } else {
+                    (self.x_min() + (i as f64) * step_size).min(self.x_max())
+                }
+            })
             .collect::<Vec<_>>();
         let new_xs = DiscreteDomain::try_from(xs).unwrap();
         let ys = self.fs(&new_xs);
